@@ -18,7 +18,7 @@ import argparse, hashlib, json, os, re, subprocess, sys, time, shutil, glob
 
 VERIF = os.path.dirname(os.path.dirname(os.path.abspath(__file__)))
 CACHE = os.path.join(VERIF, ".cache")
-TARGET = os.path.join(CACHE, "target")
+TARGET = os.environ.get("GIXV_TARGET") or os.path.join(CACHE, "target")
 BASE_COQ = os.path.join(VERIF, "base", "coq")
 DRIVER = os.path.join(VERIF, "base", "ocaml", "driver.ml")
 NCPU = os.cpu_count() or 4
